@@ -116,6 +116,14 @@ class MachineTracer:
                 if kind == "matching_cost" and len(args) > 2 and hasattr(args[2], "coords") and "disp" in args[2].coords:
                     evt["dlo"] = float(args[2].coords["disp"].data[0])
                     evt["dhi"] = float(args[2].coords["disp"].data[-1])
+                    # interval searched at the corner pixel (a border pixel of every level): the whole interval of the level
+                    import numpy as _np
+                    lo_src, hi_src = (m.disp_min, m.disp_max) if sd == "L" else (m.right_disp_min, m.right_disp_max)
+                    try:
+                        evt["blo"] = float(_np.ravel(_np.asarray(lo_src))[0])
+                        evt["bhi"] = float(_np.ravel(_np.asarray(hi_src))[0])
+                    except Exception:  # pylint: disable=broad-except
+                        pass
                 tracer.events.append(evt)
             return orig(obj, *args, **kw)
         return wrapper
